@@ -605,7 +605,7 @@ func c20Run(b core.Batch, r *core.Recorder) {
 func c20Plan(tier string, seed int64) []core.Batch {
 	n, rnd := 40, 30
 	if tier == "thorough" {
-		n, rnd = 800, 1500
+		n, rnd = 3000, 5000
 	}
 	return []core.Batch{
 		{Name: "routes", TimeoutS: 1800, Args: map[string]any{"part": "routes"}},
@@ -626,6 +626,6 @@ func init() {
 		Plan:        c20Plan,
 		Run:         c20Run,
 		Parallel:    4,
-		Floors:      map[string]map[string]int64{"quick": {"route_cookie_combinations": 800, "session_histories": 30, "login_cases": 50, "declared_cross_site_requests": 50, "live_session_controls_ok": 5}, "thorough": {"route_cookie_combinations": 800, "session_histories": 600, "login_cases": 1000, "declared_cross_site_requests": 50, "live_session_controls_ok": 5}},
+		Floors:      map[string]map[string]int64{"quick": {"route_cookie_combinations": 800, "session_histories": 30, "login_cases": 50, "declared_cross_site_requests": 50, "live_session_controls_ok": 5}, "thorough": {"route_cookie_combinations": 800, "session_histories": 2500, "login_cases": 4000, "declared_cross_site_requests": 50, "live_session_controls_ok": 5}},
 	})
 }
